@@ -105,37 +105,55 @@ Definition is_restart (o : op) : bool := match o with Restart => true | _ => fal
 Definition no_restart (ops : list op) : Prop := Forall (fun o => is_restart o = false) ops.
 Definition no_restart_b (ops : list op) : bool := forallb (fun o => negb (is_restart o)) ops.
 
-(* the launch cache entry is still within its TTL whenever the NodeClaim is reconciled *)
+(* the launch cache entry is still within its TTL *)
 Definition entry_fresh (k : cfg) (s : state) : bool :=
   match ch s with Some (_, t) => now s <=? t + k_ttl k | None => true end.
+
+(* does this reconcile consult the launch cache?  (Launch.Reconcile is reached, for an object whose
+   Launched condition is not True) *)
+Definition consults (k : cfg) (pl : plan) (s : state) : bool :=
+  match vw s with
+  | None => false
+  | Some v =>
+      k_managed k && negb (c_del v) &&
+      (if c_fin v then negb (lcond_eqb (c_l v) LTrue)
+       else match eff_wr (pc s) (f_fin pl), pc s with
+            | WOk, Some p => negb (lcond_eqb (c_l p) LTrue)
+            | _, _ => false
+            end)
+  end.
+
+(* whenever a reconcile consults the launch cache, the entry (if any) has not expired *)
+Definition rec_fresh (k : cfg) (pl : plan) (s : state) : bool := negb (consults k pl s) || entry_fresh k s.
 
 Fixpoint no_expiry_from (k : cfg) (s : state) (ops : list op) : bool :=
   match ops with
   | [] => true
   | o :: t =>
-      (match o with Rec _ => entry_fresh k s | _ => true end) && no_expiry_from k (fst (step k s o)) t
+      (match o with Rec pl => rec_fresh k pl s | _ => true end) && no_expiry_from k (fst (step k s o)) t
   end.
 Definition no_expiry (k : cfg) (ops : list op) : bool := no_expiry_from k init ops.
 
 (* ---------------------------------------------------------------- the whole property on a history *)
 
-Record holds (k : cfg) (guard : bool) (fs : list frame) : Prop := mkHolds {
-  h_once : guard = true -> (total_creates fs <= 1)%nat;
+(* [g1]: the history has no restart and no expiry; [g3]: no expiry *)
+Record holds (k : cfg) (g1 g3 : bool) (fs : list frame) : Prop := mkHolds {
+  h_once : g1 = true -> (total_creates fs <= 1)%nat;
   h_fin : Forall (fun f => create_guarded (has_fin (fr_pre f)) (fr_effs f)) fs;
-  h_order : guard = true -> Forall (fun f => ordered_opt (fr_post f)) fs;
+  h_order : g3 = true -> Forall (fun f => ordered_opt (fr_post f)) fs;
   h_just : all_justified k 0 fs;
   h_cap : Forall (fun f => cap_deletes (fr_post f) (fr_effs f)) fs }.
 
 (* which clause fails: 1 once, 2 finalizer, 3 order, 4 justification, 5 capacity *)
-Definition holds_clauses (k : cfg) (guard : bool) (fs : list frame) : list (nat * bool) :=
-  [ (1%nat, negb guard || (total_creates fs <=? 1)%nat);
+Definition holds_clauses (k : cfg) (g1 g3 : bool) (fs : list frame) : list (nat * bool) :=
+  [ (1%nat, negb g1 || (total_creates fs <=? 1)%nat);
     (2%nat, forallb (fun f => create_guarded_b (has_fin (fr_pre f)) (fr_effs f)) fs);
-    (3%nat, negb guard || forallb (fun f => ordered_opt_b (fr_post f)) fs);
+    (3%nat, negb g3 || forallb (fun f => ordered_opt_b (fr_post f)) fs);
     (4%nat, all_justified_b k 0 fs);
     (5%nat, forallb (fun f => cap_deletes_b (fr_post f) (fr_effs f)) fs) ].
 
-Definition holds_b (k : cfg) (guard : bool) (fs : list frame) : bool :=
-  forallb snd (holds_clauses k guard fs).
+Definition holds_b (k : cfg) (g1 g3 : bool) (fs : list frame) : bool :=
+  forallb snd (holds_clauses k g1 g3 fs).
 
 (* the durations the at-most-once argument relies on: both liveness timeouts end before the
    launch cache forgets the instance *)
